@@ -255,3 +255,30 @@ pub(crate) fn exec_end(result: &Result<u64, std::io::Error>) {
     let _ = std::fs::create_dir_all(&dir);
     let _ = std::fs::write(dir.join(name), rec.out);
 }
+
+/// Called by the default verifier with its verdict: appended to `verdicts-<pid>-<thread>.ndjson`
+/// in RBPF_VERIF_TRACE_DIR.
+pub(crate) fn verdict(prog: &[u8], res: &Result<(), std::io::Error>) {
+    let dir = match rec_dir() {
+        Some(d) => d,
+        None => return,
+    };
+    let mut out = String::new();
+    out.push_str("{\"e\":\"verdict\",\"prog\":");
+    if prog.len() <= 8 * 4096 {
+        push_bytes(&mut out, prog);
+    } else {
+        out.push_str("[]");
+    }
+    let msg: String = match res {
+        Ok(()) => String::new(),
+        Err(e) => e.to_string().chars().map(|c| if c == '"' || c == '\\' || c.is_control() { ' ' } else { c }).collect(),
+    };
+    let _ = writeln!(out, ",\"len\":{},\"ok\":{},\"msg\":\"{msg}\"}}", prog.len(), res.is_ok());
+    let name = format!("verdicts-{}-{:?}.ndjson", std::process::id(), std::thread::current().id()).replace(['(', ')'], "");
+    let _ = std::fs::create_dir_all(&dir);
+    if let Ok(mut f) = std::fs::OpenOptions::new().create(true).append(true).open(dir.join(name)) {
+        use std::io::Write as _;
+        let _ = f.write_all(out.as_bytes());
+    }
+}
